@@ -14,8 +14,10 @@ import (
 	"encoding/json"
 	"errors"
 	"fmt"
+	"io"
 	"os"
 	"os/exec"
+	"sort"
 	"strconv"
 	"strings"
 	"syscall"
@@ -129,7 +131,88 @@ func cliArgv(in Input, st StepIn, salt int) []string {
 }
 
 func cliEligible(in Input, st StepIn) bool {
-	return len(st.Users) == 0 && cliArgv(in, st, 0) != nil
+	if cliArgv(in, st, 0) == nil {
+		return false
+	}
+	// users of a process-level step are LIVE processes the binary finds in the real /proc: each
+	// needs an existing directory to sit in
+	for name, us := range st.Users {
+		for _, u := range us {
+			if fi, err := os.Stat(userDir(in.Cfg, name, u)); err != nil || !fi.IsDir() {
+				return false
+			}
+		}
+	}
+	return true
+}
+
+func userDir(cfg Cfg, layer string, u User) string {
+	if u.File == "" {
+		return cfg.Layers + "/" + layer
+	}
+	return cfg.Layers + "/" + layer + "/" + u.File
+}
+
+type liveUser struct {
+	cmd   *exec.Cmd
+	stdin io.WriteCloser
+}
+
+// startLiveUser starts a process whose working directory (or, for a Root user, whose root
+// directory and nothing else) is dir, and waits until it is in place.
+func startLiveUser(self, dir string, root bool) (*liveUser, error) {
+	mode := "cwd"
+	if root {
+		mode = "root"
+	}
+	cmd := exec.Command(self, "live-user", mode, dir)
+	cmd.Dir = "/"
+	stdin, err := cmd.StdinPipe()
+	if err != nil {
+		return nil, err
+	}
+	stdout, err := cmd.StdoutPipe()
+	if err != nil {
+		return nil, err
+	}
+	if err := cmd.Start(); err != nil {
+		return nil, err
+	}
+	buf := make([]byte, 16)
+	n, _ := stdout.Read(buf)
+	if !strings.HasPrefix(string(buf[:n]), "ready") {
+		stdin.Close()
+		cmd.Wait()
+		return nil, fmt.Errorf("live user in %s: %q", dir, string(buf[:n]))
+	}
+	return &liveUser{cmd, stdin}, nil
+}
+
+func (l *liveUser) stop() {
+	l.stdin.Close()
+	l.cmd.Wait()
+}
+
+// LiveUserMain: `lcv live-user cwd|root <dir>` -- take the place, say ready, stay until stdin closes.
+func LiveUserMain(args []string) {
+	if len(args) != 2 {
+		os.Exit(2)
+	}
+	var err error
+	if args[0] == "root" {
+		// the working directory stays outside: exactly one link of this process points into the layer
+		if err = os.Chdir("/"); err == nil {
+			err = syscall.Chroot(args[1])
+		}
+	} else {
+		err = os.Chdir(args[1])
+	}
+	if err != nil {
+		fmt.Println("failed:", err)
+		os.Exit(1)
+	}
+	fmt.Println("ready")
+	io.Copy(io.Discard, os.Stdin)
 }
 
 func parseOpLog(data string) []Op {
@@ -194,6 +277,20 @@ func runStepCLI(in Input, k *simk.Kernel, st StepIn, salt int) (obs StepObs) {
 		return StepObs{Res: "harness-error", Err: err.Error()}
 	}
 	argv := cliArgv(in, st, salt)
+	names := []string{}
+	for name := range st.Users {
+		names = append(names, name)
+	}
+	sort.Strings(names)
+	for _, name := range names {
+		for _, u := range st.Users[name] {
+			lu, err := startLiveUser(self, userDir(cfg, name, u), u.Root)
+			if err != nil {
+				return StepObs{Res: "harness-error", Err: err.Error()}
+			}
+			defer lu.stop()
+		}
+	}
 	cmd := exec.Command(os.Getenv("LCV_RUN")+"/layercake", argv...)
 	env := []string{}
 	for _, e := range os.Environ() {
